@@ -128,7 +128,7 @@ func TestCacheOverlapping(t *testing.T) {
 			}()
 			select { // one after the other, so that every execution misses the still empty cache and parks
 			case <-entered:
-			case <-time.After(30 * time.Second):
+			case <-harness.After(30 * time.Second):
 				harness.Inconclusive(t, "execution %d did not reach the function", i)
 			}
 		}
